@@ -163,3 +163,63 @@ Proof.
   intros q ops. pose proof (run_invariant q ops {| st_chan := []; st_sink := [] |}) as I.
   simpl in I. eexists. symmetry. exact I.
 Qed.
+
+(* ---- the FIFO with channel expansion ---- *)
+Lemma ystep_invariant : forall q s o,
+  y_sink s ++ map (direct q) (ypending s) = map (direct q) (y_acc s) ->
+  let s' := ystep true q s o in
+  y_sink s' ++ map (direct q) (ypending s') = map (direct q) (y_acc s').
+Proof.
+  intros q [old new acc sink] o H. unfold ypending in *. simpl in *.
+  destruct o as [row| | | |]; destruct new as [n|]; simpl in *; try exact H.
+  - (* emit *) rewrite !map_app. rewrite app_assoc. rewrite H. reflexivity.
+  - (* step *) destruct old as [|row rest]; simpl in *; [exact H|].
+    rewrite <- app_assoc. exact H.
+  - (* move *) destruct old as [|row rest]; simpl in *; [exact H|].
+    rewrite <- app_assoc. exact H.
+  - (* swap *) destruct old as [|row rest]; simpl in *; [|exact H].
+    rewrite app_nil_r in H. exact H.
+Qed.
+
+Lemma yrun_invariant : forall q ops s,
+  y_sink s ++ map (direct q) (ypending s) = map (direct q) (y_acc s) ->
+  let s' := fold_left (ystep true q) ops s in
+  y_sink s' ++ map (direct q) (ypending s') = map (direct q) (y_acc s').
+Proof.
+  intros q ops. induction ops as [|o ops IH]; intros s H; simpl; [exact H|].
+  apply IH. apply ystep_invariant. exact H.
+Qed.
+
+(* with the receive covered by the lock: whatever the schedule (emissions, consumer steps, any number
+   of expansions, each with its row-by-row migration), the sink has seen a prefix of
+   map (direct q) (accepted rows), and everything once nothing is buffered *)
+Theorem expand_sink_is_prefix : forall q ops,
+  let s := yrun true q ops in
+  y_sink s ++ map (direct q) (ypending s) = map (direct q) (y_acc s).
+Proof. intros q ops. apply yrun_invariant. reflexivity. Qed.
+
+Theorem expand_keeps_order : forall q ops,
+  ypending (yrun true q ops) = [] ->
+  delivered (y_sink (yrun true q ops)) = delivered (map (direct q) (y_acc (yrun true q ops))).
+Proof.
+  intros q ops H. pose proof (expand_sink_is_prefix q ops) as I. simpl in I.
+  rewrite H in I. simpl in I. rewrite app_nil_r in I. rewrite I. reflexivity.
+Qed.
+
+(* accepted rows = emitted rows that were not blocked by a migration in progress; without expansion
+   steps this is the plain FIFO *)
+Lemma yacc_no_expansion : forall q ops s,
+  y_new s = None ->
+  Forall (fun o => match o with YEmit _ | YStep => True | _ => False end) ops ->
+  y_acc (fold_left (ystep true q) ops s)
+  = y_acc s ++ flat_map (fun o => match o with YEmit r => [r] | _ => [] end) ops.
+Proof.
+  intros q ops. induction ops as [|o ops IH]; intros s Hn HF; simpl.
+  - rewrite app_nil_r. reflexivity.
+  - inversion HF as [|o' ops' Ho HF']; subst.
+    destruct o as [row| | | |]; try contradiction.
+    + rewrite IH; [|destruct s; simpl in *; rewrite Hn; reflexivity|exact HF'].
+      destruct s as [old new acc sink]; simpl in *. subst new. simpl. rewrite <- app_assoc. reflexivity.
+    + rewrite IH; [|destruct s as [old new acc sink]; simpl in *; subst new; destruct old; reflexivity|exact HF'].
+      destruct s as [old new acc sink]; simpl in *. subst new. destruct old; reflexivity.
+Qed.
